@@ -31,7 +31,7 @@ void check_C18(Src &s, Ctx &ctx) {
     st.spec = decode_spec(s, so); st.vm.decode(s);
     if (st.spec.depth > 2) st.spec.depth = 2;
     // rare class: a construction that grows beyond 1000 loaded points (the addon switches from immediate to amortised loading of completed samples there)
-    bool big = s.n > 1 && ((unsigned)s.p[s.n - 1] + 256u * (unsigned)s.p[s.n - 2]) % (cfg().tier ? 1000u : 4000u) == 7u;   // rare in both tiers (a run takes ~30 s under ThreadSanitizer); decided from the last two bytes, consumes nothing
+    bool big = cfg().tier == 1 && s.n > 1 && ((unsigned)s.p[s.n - 1] + 256u * (unsigned)s.p[s.n - 2]) % 1000u == 7u;   // thorough tier only: a run takes ~30 s under ThreadSanitizer on an idle machine, too close to the per-case budget of the quick tier (the property promises termination, so a case over budget counts); decided from the last two bytes, consumes nothing
     if (big) { GridSpec b; b.family = s.pick(2) ? F_WAVE : F_LOCALP; b.dims = 2; b.outs = 1; b.depth = 2; b.rule = b.family == F_WAVE ? rule_wavelet : rule_localp; b.order = 1; st.spec = b; st.vm.bump = 2.0; st.vm.sharp = 20.0; }
     make_grid(st.g, st.spec, so.cap); ctx.log(st.spec.text());
     auto &g = st.g; const int d = st.spec.dims, outs = st.spec.outs; bool local = st.spec.family == F_LOCALP || st.spec.family == F_WAVE;
